@@ -43,17 +43,17 @@ class Module:
         self.compiled = None
 
 
-def _write_crate(d, name, mods, prelude, check_only):
+def _write_crate(d, name, mods, prelude, check_only, crate_attrs=None):
     os.makedirs(os.path.join(d, 'src'), exist_ok=True)
     with open(os.path.join(d, 'Cargo.toml'), 'w') as f:
         f.write(CARGO_TOML % name)
     shutil.copy('/repo/Cargo.lock', os.path.join(d, 'Cargo.lock'))
-    lines = (PRELUDE + prelude).split('\n')
+    lines = ((PRELUDE if crate_attrs is None else crate_attrs) + prelude).split('\n')
     spans = []
     for m in mods:
         start = len(lines) + 1
         lines.append('pub mod c%d {' % m.cid)
-        lines.append('use super::*;')
+        lines.append('#[allow(unused_imports)] use super::*;')
         lines.extend(m.body.split('\n'))
         lines.append('}')
         spans.append((start, len(lines), m))
@@ -148,7 +148,8 @@ def _in_macro_output(span):
     return e is not None
 
 
-def compile_batch(name, mods, prelude='', check_only=False, deny_warnings=False, max_rounds=6):
+def compile_batch(name, mods, prelude='', check_only=False, deny_warnings=False, max_rounds=6, crate_attrs=None,
+                  keep_warnings=False):
     """Compiles the batch; sets m.compiled and m.diags for every module.
     Returns path of the executable (or None when check_only / nothing compiled)."""
     d = os.path.join(L2, name)
@@ -158,7 +159,9 @@ def compile_batch(name, mods, prelude='', check_only=False, deny_warnings=False,
         m.compiled, m.diags = None, []
     if True:
         for _ in range(max_rounds):
-            spans = _write_crate(d, name, live, prelude, check_only)
+            for m in live:
+                m.diags = []
+            spans = _write_crate(d, name, live, prelude, check_only, crate_attrs)
             rc, diags, stderr = _cargo(d, check_only, deny_warnings)
             bad = set()
             unplaced = []
@@ -187,8 +190,6 @@ def compile_batch(name, mods, prelude='', check_only=False, deny_warnings=False,
                 if m.cid in bad:
                     m.compiled = False
             live = [m for m in live if m.cid not in bad]
-            for m in live:
-                m.diags = [x for x in m.diags if x['level'] != 'error']
             if not live:
                 break
         else:
